@@ -45,11 +45,14 @@ class Vector3(Vector):
             if arg.rank > 1 and arg._numer_[0] == 3:
                 arg = arg.split_items(1, Vector3)
 
-            arg = Vector3(arg)
+            obj = Vector3(arg)
             if recursive:
-                return arg
+                for (key, deriv) in arg._derivs_.items():
+                    obj.insert_deriv(key, Vector3.as_vector3(deriv,
+                                                             recursive=False))
+                return obj
 
-            return arg.wod
+            return obj.wod
 
         return Vector3(arg)
 
